@@ -18,6 +18,7 @@ func main() {
 		{Name: "dir-traverse", Gen: genDirTraverse},
 		{Name: "und-topo", Gen: genUndTopo},
 		{Name: "und-span", Gen: genUndSpan},
+		{Name: "und-span-frac", Gen: genUndSpanFrac},
 		{Name: "und-color-exact", Gen: genUndColorExact},
 		{Name: "product", Gen: genProduct},
 		{Name: "gen-det", Gen: genGenDet},
